@@ -135,35 +135,42 @@ Proof.
   - rewrite !pget_notin; [reflexivity | |]; intros Hi; apply Hn; apply in_or_app; auto.
 Qed.
 
-Lemma running_deltab_sound dtr : forall acc ctr, forallb psorted dtr = true -> running_deltab acc dtr ctr = true ->
-  length dtr = length ctr /\
-  forall n k, (n < length ctr)%nat -> pget k (nth n ctr []) = running_from (pget k acc) k (firstn (S n) dtr).
+Lemma pget_merge_all ds : forallb psorted ds = true -> forall acc k,
+  pget k (fold_left pmerge ds acc) = running_from (pget k acc) k ds.
 Proof.
-  induction dtr as [|d dr IH]; intros acc [|c cr] Hs H; try discriminate.
-  - split; [reflexivity|]. intros n k Hn. cbn in Hn. lia.
-  - cbn [running_deltab] in H. cbn zeta in H. apply andb_true_iff in H as [H1 H2].
-    cbn [forallb] in Hs. apply andb_true_iff in Hs as [Hd Hs].
-    destruct (IH _ cr Hs H2) as [Hl Hp]. split; [cbn; now rewrite Hl|].
-    intros n k Hn. destruct n as [|n]; cbn [nth].
-    + unfold running_from. cbn [firstn fold_left]. rewrite (same_points_sound _ _ H1). now apply pget_pmerge.
-    + rewrite Hp by (cbn in Hn; lia). unfold running_from.
-      change (firstn (S (S n)) (d :: dr)) with (d :: firstn (S n) dr). cbn [fold_left]. now rewrite pget_pmerge.
+  induction ds as [|d r IH]; intros Hs acc k; [reflexivity|].
+  cbn [forallb] in Hs. apply andb_true_iff in Hs as [Hd Hs].
+  cbn [fold_left]. rewrite (IH Hs). unfold running_from. cbn [fold_left]. now rewrite pget_pmerge.
+Qed.
+
+Lemma forallb_firstn {A} (f : A -> bool) n l : forallb f l = true -> forallb f (firstn n l) = true.
+Proof.
+  revert n; induction l as [|x l IH]; intros [|n] H; try reflexivity.
+  cbn in *. apply andb_true_iff in H as [H1 H2]. now rewrite H1, IH.
+Qed.
+
+Lemma running_deltab_sound sync dtr ctr : forallb psorted dtr = true -> running_deltab sync dtr ctr = true ->
+  RunningDelta sync dtr ctr.
+Proof.
+  intros Hs H nd nc k Hin. unfold running_deltab in H. rewrite forallb_forall in H.
+  specialize (H (nd, nc) Hin). cbn [fst snd] in H. apply andb_true_iff in H as [_ H].
+  rewrite (same_points_sound _ _ H). unfold running.
+  now rewrite (pget_merge_all _ (forallb_firstn psorted (S nd) dtr Hs)).
 Qed.
 
 (** the checker of one stream is sound for the clause of its class *)
 Theorem stream_ok_sound cl i h dtr ctr : stream_ok cl i h dtr ctr = true ->
   match cl with
-  | CSyncAdd => RunningDelta (map s_points dtr) (map s_points ctr)
-  | CSyncGauge => GaugeCycle (cycles_sync i h []) (map s_points dtr) /\ GaugeSoFar (cycles_sync i h []) (map s_points ctr)
-  | CAsyncSum => AsyncDelta (cycles_async i h []) (map s_points dtr) /\ AsyncCum (cycles_async i h []) (map s_points ctr)
-  | CAsyncGauge => GaugeCycle (cycles_async i h []) (map s_points dtr) /\ GaugeCycle (cycles_async i h []) (map s_points ctr)
+  | CSyncAdd => RunningDelta (sync_points h 0 0) (map s_points dtr) (map s_points ctr)
+  | CSyncGauge => GaugeCycle (cycles_sync true i h []) (map s_points dtr) /\ GaugeSoFar (cycles_sync false i h []) (map s_points ctr)
+  | CAsyncSum => AsyncDelta (cycles_async true i h []) (map s_points dtr) /\ AsyncCum (cycles_async false i h []) (map s_points ctr)
+  | CAsyncGauge => GaugeCycle (cycles_async true i h []) (map s_points dtr) /\ GaugeCycle (cycles_async false i h []) (map s_points ctr)
   end.
 Proof.
   unfold stream_ok. intros H. repeat (apply andb_true_iff in H as [H ?]).
   destruct cl.
   - match goal with Hr : running_deltab _ _ _ = true, Hs : forallb psorted (map s_points dtr) = true |- _ =>
-      destruct (running_deltab_sound _ _ _ Hs Hr) as [Hl Hp] end.
-    split; [exact Hl|]. intros n k Hn. now rewrite Hp.
+      exact (running_deltab_sound _ _ _ Hs Hr) end.
   - match goal with Hg : _ && _ = true |- _ => apply andb_true_iff in Hg as [Hg1 Hg2] end.
     split; [now apply gauge_cycleb_sound | now apply (gauge_sofarb_sound _ [])].
   - match goal with Hg : _ && _ = true |- _ => apply andb_true_iff in Hg as [Hg1 Hg2] end.
